@@ -152,7 +152,9 @@ def run_case(case, tier):
     rng = random.Random(case["seed"])
     splits = []
     for p in paths:
-        if p and rng.random() < (0.5 if tier == "quick" else 1.0):
+        if case.get("all_splits"):
+            splits.extend((p[:cut], p[cut:]) for cut in range(len(p)))      # every way of splitting every path
+        elif p and rng.random() < (0.5 if tier == "quick" else 1.0):
             cut = rng.randint(0, len(p) - 1)
             splits.append((p[:cut], p[cut:]))
         if rng.random() < 0.15:
@@ -249,9 +251,11 @@ def gen_case(rng, tier):
 
 
 def corpus(rng):
-    m = {b"\x12\x34": b"a" * 40, b"\x12\x35": b"b", b"\x12": b"c" * 33, b"": b"r", b"\x40\x00\x00": b"leaf"}
+    # (0x56780a / 0x56780b: a four-nibble extension over a hashed branch - paths can end strictly inside it)
+    m = {b"\x12\x34": b"a" * 40, b"\x12\x35": b"b", b"\x12": b"c" * 33, b"": b"r", b"\x40\x00\x00": b"leaf",
+         b"\x56\x78\x0a": b"x" * 40, b"\x56\x78\x0b": b"y" * 40}
     writes = [("set", k, v, "meth") for k, v in m.items()]
-    return [{"prune": False, "writes": writes, "m": m, "paths": gen_paths(rng, m, "thorough"), "seed": 3}]
+    return [{"prune": False, "writes": writes, "m": m, "paths": gen_paths(rng, m, "thorough"), "seed": 3, "all_splits": True}]
 
 
 def check(tier, seed):
